@@ -264,9 +264,18 @@ int MxEndpoint::create(const EpCfg &c, const sslKeys_t *keys) {
             // client auth is therefore not expressible through the documented API and such cfgs are not generated.
         }
     } else {
+        tlsExtension_t *ext = nullptr;
+        if (cfg.send_sni && !cfg.expected_name.empty() && matrixSslNewHelloExtension(&ext, nullptr) >= 0) {
+            unsigned char *sni = nullptr; int32 sniLen = 0;
+            if (matrixSslCreateSNIext(nullptr, (unsigned char *) cfg.expected_name.c_str(), (int32) cfg.expected_name.size(), &sni, &sniLen) >= 0) {
+                matrixSslLoadHelloExtension(ext, sni, (uint32) sniLen, EXT_SNI);
+                psFree(sni, nullptr);
+            }
+        }
         rc = matrixSslNewClientSession(&ssl, keys, cfg.sid, cfg.suites.empty() ? nullptr : cfg.suites.data(),
                                        (uint8_t) cfg.suites.size(), cb, cfg.expected_name.empty() ? nullptr : cfg.expected_name.c_str(),
-                                       nullptr, nullptr, &opt);
+                                       ext, nullptr, &opt);
+        if (ext) { matrixSslDeleteHelloExtension(ext); }
     }
     create_rc = rc;
     log(cfg.server ? "NewServerSession" : "NewClientSession", rc);
